@@ -26,9 +26,9 @@ CLAIMED = {
             "Trusted: the reference model (sim/gsim/src/model.rs), the single-task lock observer. One task by construction (the plain flavours are !Send).",
             "DESIGN.md §4 C03"),
     "C17": ("conc", "exploration",
-            "deterministic simulation: simulated caller threads under a seeded baton-passing scheduler over the lock seam (every interleaving of lock acquisitions and the RwLock queueing policy decided by the PRNG), serialisability check against a reference model, minimised replayable schedule",
-            "2-4 simulated caller threads run seeded scripts of mutations, queries, iteration and traversals on shared sync nodes; the scheduler decides who runs at every lock acquisition (uniform / PCT / sticky / serial policies, writer preference on or off). Verdicts: deadlock (no task runnable), step-budget overrun, panic or poisoned lock, quiescent mirror/symmetry invariant, and existence of a sequential order of the mutating calls that explains every return value and the final graph. Seeded schedule search, not exhaustive.",
-            "Trusted: scheduler and lock model (cross-checked against the real lock at every grant), reference model. Context switches only at lock acquisitions (all shared mutable state of the sync flavours is under those locks). Nodes kept alive by the harness.",
+            "deterministic simulation: simulated caller threads under a seeded baton-passing scheduler over the lock seam (every interleaving of lock acquisitions and the RwLock queueing policy decided by the PRNG), serialisability check against a reference model, minimised replayable schedule; second stage: the shipped sync flavours (guard off, std locks) interpreted by Miri under its seeded preemptive scheduler (-Zmiri-seed, -Zmiri-preemption-rate), which reports data races, undefined behaviour, deadlocks and leaks",
+            "2-4 simulated caller threads run seeded scripts of mutations, queries, iteration and traversals on shared sync nodes; the scheduler decides who runs at every lock acquisition (uniform / PCT / sticky / serial policies, writer preference on or off). Verdicts: deadlock (no task runnable), step-budget overrun, panic or poisoned lock, quiescent mirror/symmetry invariant, and existence of a sequential order of the mutating calls that explains every return value and the final graph. Seeded schedule search, not exhaustive. Second stage (msim): 192 (quick) / 6000 (thorough) executions of small thread scenarios (1-4 nodes, 2-3 threads, 1-4 calls each, three schedules per scenario) under Miri: data race, undefined behaviour, deadlock, panic, quiescent invariant.",
+            "Trusted: scheduler and lock model (cross-checked against the real lock at every grant), reference model. Context switches only at lock acquisitions (all shared mutable state of the sync flavours is under those locks). Nodes kept alive by the harness. msim stage: Miri's scheduler and race detector are trusted; its scenarios are tiny.",
             "DESIGN.md §4 C17"),
     "C20": ("inject", "exploration",
             "deterministic simulation: re-entrant interleaving of a loop/traversal with a script of operations, the simulator deciding at every step which operations fire; lock seam reports a guard kept across a step as self-deadlock; per-step oracle against the reference model",
@@ -56,9 +56,9 @@ CLAIMED = {
             "Trusted: the map model and the DOT statement parser in sim/gsim/src/engines/container.rs.",
             "DESIGN.md §4 C18"),
     "C19": ("lifetime", "exploration",
-            "deterministic simulation of handle lifetime: drop placement (order, and thread in the sync flavours) chosen by the simulator; drop-counting payload registry checked after every drop and at the end",
-            "Seeded construction histories (cycles, self-loops, parallel edges), handles taken from every source (clones, iterated edges, paths, cycles, found nodes, orderings, containers, to_vec, scc), then one drop at a time in a simulator-chosen order; after each drop no value of a node with a live handle has been released and held results stay usable; at the end every node value and every edge-value instance has been released exactly once.",
-            "Trusted: the payload registry (sim/gsim/src/payload.rs). Cross-thread drops are sequential; racing reference counts are not simulated.",
+            "deterministic simulation of handle lifetime: drop placement (order, and thread in the sync flavours) chosen by the simulator; drop-counting payload registry checked after every drop and at the end; second stage: concurrent handle traffic and a concurrent tear-down (last handles of one node dropped on different threads) of the shipped sync flavours interpreted by Miri under its seeded scheduler - racing reference counts, use after free and leaks are reported by the interpreter",
+            "Seeded construction histories (cycles, self-loops, parallel edges), handles taken from every source (clones, iterated edges, paths, cycles, found nodes, orderings, containers, to_vec, scc), then one drop at a time in a simulator-chosen order; after each drop no value of a node with a live handle has been released and held results stay usable; at the end every node value and every edge-value instance has been released exactly once. Second stage (msim): 192 (quick) / 6000 (thorough) Miri executions of 2-3 threads cloning, finding, iterating and dropping handles of shared sync nodes, then dropping the last handles of every node concurrently.",
+            "Trusted: the payload registry (sim/gsim/src/payload.rs). In gsim cross-thread drops are sequential; reference counts that race are what the msim stage (Miri) decides, on small scenarios.",
             "DESIGN.md §4 C19"),
     "C15": ("twin", "exploration",
             "deterministic simulation used as a differential harness: the same seeded call history and the same simulated hash seed on a plain flavour and its sync twin, event logs diffed call by call, minimised replayable history",
@@ -106,7 +106,7 @@ def main():
         na.append({"property_id": pid, "reason": reason})
     manifest = {
         "version": 1,
-        "setup_cmd": "cd /verif/sim && CARGO_NET_OFFLINE=true cargo build --release --offline",
+        "setup_cmd": "cd /verif/sim && CARGO_NET_OFFLINE=true cargo build --release --offline && (cd /verif/msim && CARGO_NET_OFFLINE=true cargo +nightly miri setup >/dev/null 2>&1 || true)",
         "hooks": {
             "guard": "gdsl_verif",
             "enable": "rustc --cfg gdsl_verif, set in /verif/sim/.cargo/config.toml; gdsl is built from /repo/src through the shadow manifest /verif/sim/gdsl-shadow/Cargo.toml",
@@ -118,7 +118,12 @@ def main():
             "name": "gsim",
             "path": "/verif/sim/gsim",
             "serves_properties": sorted(CLAIMED),
-            "kind_free_text": "seeded deterministic simulator running the real gdsl code: baton-passing scheduler over a lock seam, hash-order seam, simulated byte streams, handle-drop placement, reference multigraph model, minimiser and replay files",
+            "kind_free_text": "seeded deterministic simulator running the real gdsl code: baton-passing scheduler over a lock seam, hash-order seam, key seam, simulated byte streams, handle-drop placement, reference multigraph model, minimiser and replay files",
+        }, {
+            "name": "msim",
+            "path": "/verif/msim",
+            "serves_properties": ["C17", "C19"],
+            "kind_free_text": "second stage of the C17 and C19 checks: small thread scenarios on the shipped sync flavours (guard off) interpreted by Miri; schedule = f(-Zmiri-seed, -Zmiri-preemption-rate); reports data races, undefined behaviour, deadlocks, leaks; scenario text minimised, replay = scenario text + Miri seed",
         }],
         "checks": checks,
         "not_applicable": na,
